@@ -155,6 +155,27 @@ pub fn c11_b() -> (bool, String) {
     (fails, format!("after somebody created a 2000uusdc farm with preliminary_end_epoch = u64::MAX on an LP token: another user's farm creation on that LP token: {}; emergency withdrawal of a position in it: {}", create.short(), exit.short()))
 }
 
+/// KF-C11-c: a farm ending in the last weeks the chain's nanosecond clock can hold (year 2554)
+/// makes `end time + farm_expiration_time` overflow wherever the farm manager asks whether that
+/// farm has expired: every later farm creation on the LP token and every emergency withdrawal of
+/// a position in it aborts
+pub fn c11_c() -> (bool, String) {
+    let mut w = world(coin(1_000, "uom"));
+    let (lp_a, _) = two_pools(&mut w);
+    let (staker, hostile, creator) = (w.users[0].clone(), w.users[1].clone(), w.users[2].clone());
+    must(w.apply(&pos_op(&staker, PositionAction::Create { identifier: Some("s".into()), unlocking_duration: 30 * DAY, receiver: None }, vec![coin(1_000_000, lp_a.clone())])), "position");
+    let junk = coin(2_000, "uusdc");
+    // the epoch after the farm's last one still starts within the clock's range, a month later does not
+    let last = (18_446_744_073u64 - w.cfg.start_time) / w.cfg.epoch_duration;
+    must(w.apply(&farm_op(&hostile, farm(&lp_a, junk.clone(), 1, last - 3, "y2554"), farm_funds(&junk, &coin(1_000, "uom")))), "far-future farm");
+    w.advance(2 * DAY);
+    let reward = coin(5_000, "uusdc");
+    let create = w.apply(&farm_op(&creator, farm(&lp_a, reward.clone(), 3, 8, "next"), farm_funds(&reward, &coin(1_000, "uom"))));
+    let exit = w.apply(&pos_op(&staker, PositionAction::Withdraw { identifier: "u-s".into(), emergency_unlock: Some(true) }, vec![]));
+    let fails = !create.is_ok() || !exit.is_ok();
+    (fails, format!("after somebody created a 2000uusdc farm with preliminary_end_epoch = {} (ends in the year 2554) on an LP token: another user's farm creation on that LP token: {}; emergency withdrawal of a position in it: {}", last - 3, create.short(), exit.short()))
+}
+
 /// KF-C02-a: withdrawal share truncated to 18 decimals
 pub fn c02_a() -> (bool, String) {
     let mut w = world(coin(0, "uom"));
@@ -330,8 +351,8 @@ pub fn run_pinned(property: &str, rep: &mut Reporter) {
         "C06" => vec![("KF-C06-a", c06_a), ("KF-C10-a", c10_a)],
         "C07" => vec![("KF-C07-a", c07_a)],
         "C10" => vec![("KF-C10-a", c10_a), ("KF-C06-a", c06_a)],
-        "C11" => vec![("KF-C11-a", c11_a), ("KF-C11-b", c11_b)],
-        "C05" => vec![("KF-C11-b", c11_b)],
+        "C11" => vec![("KF-C11-a", c11_a), ("KF-C11-b", c11_b), ("KF-C11-c", c11_c)],
+        "C05" => vec![("KF-C11-b", c11_b), ("KF-C11-c", c11_c)],
         "C12" => vec![("KF-C12-a", c12_a)],
         "C13" => vec![("KF-C13-a", c13_a), ("KF-C13-b", c13_b)],
         "C16" => vec![("KF-C16-a", c16_a)],
@@ -365,6 +386,7 @@ pub fn all() -> Vec<(&'static str, fn() -> (bool, String))> {
         ("KF-C16-a", c16_a),
         ("KF-C11-b", c11_b),
         ("KF-C02-c", c02_c),
+        ("KF-C11-c", c11_c),
     ]
 }
 
